@@ -7,6 +7,11 @@ import GoatProofs.C07JWK
 import GoatProofs.C07Custom
 import GoatProofs.C07KW
 import GoatProofs.C07Registry
+import GoatProofs.C07JWSOut
+import GoatProofs.C07Binding
+import GoatProofs.C07ECDHES
+import GoatProofs.C07Header
+import GoatProofs.C07Errors
 /-
 C07 — no attacker-supplied input can crash the process.  Umbrella module.
 
@@ -19,5 +24,10 @@ C07 — no attacker-supplied input can crash the process.  Umbrella module.
   C07Custom   jwt.Claims.DecodeCustom                                          (model of C10)
   C07KW       key unwrapping and content decryption of every registered algorithm (models of C12)
   C07Registry Available() really guards New(), for every link set, from the regenerated body shapes
+  C07JWSOut   jws Compact / MarshalJSON / Header.MarshalJSON                  (model of C01/C02)
+  C07Binding  NewKeyWrapper × UnwrapKey decision logic for every key kind     (model of C03)
+  C07ECDHES   ECDH-ES(+A*KW) UnwrapKey incl. the Concat KDF reader            (model of C12)
+  C07Header   table-driven jws/jwe decodeHeader / encodeHeader over the REGENERATED tables (model of C11)
+  C07Errors   every error value renders: Error() and the Unwrap chain are total (own model ErrorValues)
   Lemmas/C07NoPanic   PO.NoPanic / NoPanicOn / Post and the `nopanic`, `popost` tactics
 -/
